@@ -528,6 +528,63 @@ Theorem by_instruction_total : forall nm f n,
   recreate nm false (IStep f) n = inr (SFun f).
 Proof. reflexivity. Qed.
 
+(* Whatever recreate_stepper builds (repaired code: by_name = false) from ANY saved-state tree is a
+   stepper of this outline: every stepper object points to the instruction at the position its
+   parent says, every function stepper holds its instruction's function.  (Positions may still be
+   out of range when the tree is not one that save produced: recreate does not validate them.) *)
+Section RecreateSound.
+  Variable nm : names.
+
+  Lemma recreate_block_sound : forall (objnth : nat -> spos -> option stepper) recnth b n s,
+    (forall k m c, recnth k m = inr c -> objnth k (pos_of c) = Some c) ->
+    recreate_block recnth b n = inr s ->
+    exists pos ch, pos_of s = PBlock pos ch /\ obj_block objnth b pos ch = Some s.
+  Proof.
+    intros objnth recnth b [cls [p|] f [cn|]] s H Hr; simpl in Hr; try discriminate.
+    - destruct (recnth p cn) as [e|c] eqn:E; [discriminate|]. inversion Hr; subst.
+      exists p, (Some (pos_of c)). split; [reflexivity|]. simpl. rewrite (H _ _ _ E). reflexivity.
+    - inversion Hr; subst. exists p, None. split; reflexivity.
+  Qed.
+
+  Lemma recreate_sound_mut :
+    (forall i n s, recreate nm false i n = inr s -> obj i (pos_of s) = Some s) /\
+    (forall b k n s, recreate_nth nm false b k n = inr s -> obj_nth b k (pos_of s) = Some s) /\
+    (forall brs k n s, recreate_branch nm false brs k n = inr s ->
+        obj_branch brs k (pos_of s) = Some s).
+  Proof.
+    apply instr_mutind.
+    - intros f n s H. inversion H; reflexivity.
+    - intros b IH n s H.
+      change (recreate_block (recreate_nth nm false b) b n = inr s) in H.
+      destruct (recreate_block_sound (obj_nth b) _ _ _ _ IH H) as (pos & ch & Hp & Ho).
+      rewrite Hp. exact Ho.
+    - intros brs IH [cls [p|] f [cn|]] s H; try discriminate.
+      + rewrite recreate_if_unf in H.
+        destruct (recreate_branch nm false brs p cn) as [e|c] eqn:E; [discriminate|].
+        inversion H; subst. simpl. rewrite (IH _ _ _ E). reflexivity.
+      + inversion H; reflexivity.
+    - intros p body IH [cls q f [cn|]] s H.
+      + rewrite recreate_while_unf in H.
+        destruct (recreate_block (recreate_nth nm false body) body cn) as [e|c] eqn:E; [discriminate|].
+        inversion H; subst.
+        destruct (recreate_block_sound (obj_nth body) _ _ _ _ IH E) as (pos & ch & Hp & Ho).
+        simpl. rewrite Hp, Ho. reflexivity.
+      + inversion H; reflexivity.
+    - intros code n s H. inversion H; reflexivity.
+    - intros k n s H. discriminate.
+    - intros i IHi b IHb [|k] n s H; simpl in H |- *; [eapply IHi | eapply IHb]; eassumption.
+    - intros k n s H. discriminate.
+    - intros p body IHb rest IHr [|k] n s H; simpl in H |- *.
+      + destruct (recreate_block_sound (obj_nth body) _ _ _ _ IHb H) as (pos & ch & Hp & Ho).
+        rewrite Hp. exact Ho.
+      + eapply IHr; eassumption.
+  Qed.
+
+  Theorem recreate_sound : forall o n s,
+    recreate nm false o n = inr s -> obj o (pos_of s) = Some s.
+  Proof. exact (proj1 recreate_sound_mut). Qed.
+End RecreateSound.
+
 (* ====================================================================== *)
 (* B. the pending continuation                                             *)
 (* ====================================================================== *)
